@@ -3,5 +3,5 @@
 name=$1; shift
 cd /repo && git apply /verif/seeded/$name/patch.diff || { echo "apply failed"; exit 2; }
 cd /verif
-for c in "$@"; do ./check $c --tier quick 2>&1 | grep -E 'VIOLATION|KNOWN|tier=' ; done
+for c in "$@"; do VERIF_NO_EVIDENCE=1 ./check $c --tier quick 2>&1 | grep -E 'VIOLATION|KNOWN|tier=' ; done
 git -C /repo checkout -- . ; git -C /repo status --short | head -3
